@@ -2,7 +2,9 @@
 # tools/archive_mut.py <pid> <letter> <change> <needs> <check> <result>  — copies a confirmed seeded change into /verif/seeded
 import json, os, shutil, sys
 pid, letter, what, needs, check, note = sys.argv[1:7]
-src=f"/tmp/mut-{pid}/_out/{letter}"
+# optional: source directory and the letter to archive under (second rounds: A/B of /tmp/mut2-<pid> become C/D)
+src=sys.argv[7] if len(sys.argv)>7 else f"/tmp/mut-{pid}/_out/{letter}"
+letter=sys.argv[8] if len(sys.argv)>8 else letter
 dst=f"/verif/seeded/{pid}-{letter}"
 if os.path.exists(dst): shutil.rmtree(dst)
 os.makedirs(dst)
